@@ -19,11 +19,15 @@ RULE = ("random raw (non-unit) perpendicular antenna axes, positions, arrival di
         "polarisation gain reading all three antenna-frame components; optional complex frequency response), "
         "DipoleAntenna (tape-fed tmp vector, Butterworth band-pass), AntennaSystem around either; ops coords / "
         "angles / factor / respond / receive1 / receive (1-3 polarised components, error modes) / dipole "
-        "construction / frequency response; a case is non-trivial when direction and polarisation are given and "
+        "construction / frequency response; short HISTORIES on one Antenna / DipoleAntenna / AntennaSystem object "
+        "(apply_response / receive of one or several mixed-type components interleaved with set_orientation incl. a "
+        "raising one, assignments of position / antenna_factor / efficiency / z_axis / x_axis, clear; grid, direction "
+        "and polarisation recurring between steps) compared after every step with the model and with a never-used "
+        "antenna brought to the current parameters; a case is non-trivial when direction and polarisation are given and "
         "the value type is accepted; distinct = distinct (antenna, op, arguments)")
 LEVEL_TEXT = ("theorems (linearity given a linear filter, factor decomposition with the field/voltage/other decision, "
               "SO(3) covariance of (r,theta,phi) and of both gains via R(a x b) = Ra x Rb, dipole gains, receive = sum "
-              "of components, AntennaSystem delegation) proved over R for every antenna, signal and rotation; the same "
+              "of components, AntennaSystem delegation, re-orientation = fresh construction) proved over R for every antenna, signal and rotation; the same "
               "model text run on Float agrees with pyrex on every sampled input")
 LEVEL_NOTE = ("the frequency filter is an abstract linear operator in the theorems (linearity of "
               "Signal.filter_frequencies is property C05; the zero-padded DFT filter the driver runs is proved linear, "
@@ -90,7 +94,89 @@ def build(spec):
         if spec.get("fresp") is not None:
             inner.frequency_response = lowpass(spec["fresp"])
     outer = AntennaSystem(inner) if spec["kind"].startswith("sys") else inner
+    for rec in spec.get("hist", []):     # a never-used object brought to the current parameters
+        apply_record(outer, inner, rec)
     return outer, inner
+
+
+def apply_record(outer, inner, rec):
+    """one step of an object's history (no signal involved); -> False when set_orientation raised"""
+    k = rec[0]
+    if k == "so":        # through the object the calls go to (Antenna or AntennaSystem delegation)
+        try:
+            outer.set_orientation(z_axis=np.array(rec[1]), x_axis=np.array(rec[2]))
+        except ValueError:
+            return False
+    elif k == "pos":
+        inner.position = np.array(rec[1])
+    elif k == "af":
+        inner.antenna_factor = rec[1]
+    elif k == "eff":
+        inner.efficiency = rec[1]
+    elif k == "zax":
+        inner.z_axis = np.array(rec[1])
+    elif k == "xax":
+        inner.x_axis = np.array(rec[1])
+    elif k == "clear":
+        outer.clear(reset_noise=bool(rec[1]))
+    return True
+
+
+def _unit(v):
+    v = np.array(v, dtype=float)
+    m = np.linalg.norm(v)
+    return v if m == 0 else v / m
+
+
+def current_state(spec):
+    """stored attributes (position, z_axis, x_axis, antenna_factor, efficiency) after the history, computed
+    independently of pyrex"""
+    st = {"pos": np.array(spec["pos"], dtype=float), "z": _unit(spec["z"])}
+    if spec["kind"] in ("dip", "sysdip"):
+        st["x"] = _unit(np.cross(np.array(spec["z"], dtype=float), np.array(spec["tape"][:3])))
+        st["af"] = 1.0 / (spec.get("eh") or 299792458.0 / spec["cf"] / 2)
+        st["eff"] = 1.0
+    else:
+        st["x"] = _unit(spec["x"])
+        st["af"], st["eff"] = spec["af"], spec["eff"]
+    for rec in spec.get("hist", []):
+        k = rec[0]
+        if k == "so":
+            st["z"], st["x"] = _unit(rec[1]), _unit(rec[2])
+        elif k in ("pos",):
+            st["pos"] = np.array(rec[1], dtype=float)
+        elif k == "zax":
+            st["z"] = np.array(rec[1], dtype=float)
+        elif k == "xax":
+            st["x"] = np.array(rec[1], dtype=float)
+        elif k in ("af", "eff"):
+            st[k] = rec[1]
+    return st
+
+
+def expected_gain_factor(spec, st, direction, pol, vt):
+    """d_gain * p_gain * eff (/ af for fields) from the definitions, for the stored state `st`"""
+    zs, xs = st["z"], st["x"]
+    ys = np.cross(zs, xs)
+    dg = pg = 1.0
+    if direction is not None:
+        rel = -_unit(direction)
+        cx, cy, cz = float(np.dot(xs, rel)), float(np.dot(ys, rel)), float(np.dot(zs, rel))
+        r = math.sqrt(cx * cx + cy * cy + cz * cz)
+        th, phi = (math.acos(max(-1.0, min(1.0, cz / r))), math.atan2(cy, cx)) if r > 0 else (0.0, 0.0)
+        if spec["kind"] in ("dip", "sysdip"):
+            dg = math.sin(th)
+        elif spec.get("gains") is not None:
+            c = spec["gains"]
+            dg = math.sin(th) * (c[0] + c[1] * math.cos(phi) + c[6] * math.sin(phi)) + c[2] * th
+    if pol is not None:
+        ph_ = _unit(pol)
+        if spec["kind"] in ("dip", "sysdip"):
+            pg = float(np.dot(zs, ph_))
+        elif spec.get("gains") is not None:
+            c = spec["gains"]
+            pg = c[3] * float(np.dot(xs, ph_)) + c[4] * float(np.dot(zs, ph_)) + c[5] * float(np.dot(ys, ph_))
+    return dg * pg * st["eff"] / (st["af"] if vt == "field" else 1.0)
 
 
 def rotated(spec, R):
@@ -151,6 +237,149 @@ def rand_signal(run, n=None, dt=None):
     return {"t0": t0, "dt": dt, "vals": [rng.gauss(0, 1) * rng.choice([1, 1, 1e-3]) for _ in range(n)]}
 
 
+def perp_pair(rng):
+    z = np.array(gvec(rng, rng.choice([1.0, 0.3, 7.0])))
+    while True:
+        x = np.cross(z, np.array(gvec(rng)))
+        if np.linalg.norm(x) > 0.2 * np.linalg.norm(z):
+            break
+    x = x / np.linalg.norm(x) * rng.choice([1.0, 2.5, 0.4])
+    return [float(c) for c in z], [float(c) for c in x]
+
+
+def rand_record(run, spec):
+    """a state-changing step of an antenna history"""
+    rng = run.rng
+    k = rng.choice(["so-rot", "so-rot", "so-new", "so-new", "so-bad", "pos", "af", "eff", "axes", "clear"])
+    if k == "so-rot":
+        st = current_state(spec)
+        R = rand_rotation(rng)
+        a, b = rng.choice([1.0, 3.0]), rng.choice([1.0, 0.5])
+        return ["so", [float(c) for c in a * (R @ st["z"])], [float(c) for c in b * (R @ st["x"])]]
+    if k == "so-new":
+        z, x = perp_pair(rng)
+        return ["so", z, x]
+    if k == "so-bad":       # raises ValueError, but the axes have been replaced already
+        z, x = perp_pair(rng)
+        x = [x[i] + 0.3 * z[i] for i in range(3)]
+        return ["so", z, x]
+    if k == "pos":
+        return ["pos", [rng.uniform(-100, 100), rng.uniform(-100, 100), rng.uniform(-300, -10)]]
+    if k == "af":
+        return ["af", rng.uniform(0.2, 8.0)]
+    if k == "eff":
+        return ["eff", rng.uniform(0.1, 1.0)]
+    if k == "axes":         # plain attribute assignment of one stored axis (no normalisation, no check)
+        z, x = perp_pair(rng)
+        return rng.choice([["zax", [float(c) for c in _unit(z)]], ["xax", [float(c) for c in _unit(x)]]])
+    return ["clear", rng.random() < 0.5]
+
+
+def rand_use(run, n=None, dt=None, keep=None):
+    """one signal handed to the antenna: apply_response, receive of one signal or of polarised components;
+    `keep` (a dict living as long as the history) makes direction and polarisation recur between steps"""
+    use = _rand_use(run, n, dt)
+    if keep is not None:
+        if "direction" in keep and use["direction"] is not None and run.rng.random() < 0.6:
+            use["direction"] = keep["direction"]
+            if "polarization" in use and use["polarization"] is not None:
+                use["polarization"] = keep["polarization"]
+            for c, pk in zip(use.get("components", []), keep["pols"]):
+                c["pol"] = pk
+        elif use["direction"] is not None and "direction" not in keep:
+            keep["direction"] = use["direction"]
+            keep["polarization"] = use.get("polarization") or gvec(run.rng)
+            keep["pols"] = [gvec(run.rng) for _ in range(3)]
+    return use
+
+
+def _rand_use(run, n=None, dt=None):
+    rng = run.rng
+    sd = rand_signal(run, n, dt)
+    nn = len(sd["vals"])
+    op = rng.choice(["respond", "respond", "receive1", "receive"])
+    use = {"op": op, "signal": sd, "direction": None if rng.random() < 0.1 else gvec(rng, rng.choice([1.0, 20.0])),
+           "force_real": rng.random() < 0.6}
+    if op == "receive":
+        use["components"] = [{"vals": [rng.gauss(0, 1) for _ in range(nn)],
+                              "vt": rng.choice(["field", "voltage", "field", "voltage", "undefined", "power"]) if rng.random() < 0.25
+                              else rng.choice(["field", "voltage"]), "pol": gvec(rng)}
+                             for _ in range(rng.choice([2, 2, 3]))]
+    else:
+        use["vt"] = rng.choice(["field", "field", "voltage", "voltage", "voltage", "undefined"])
+        use["polarization"] = None if rng.random() < 0.1 else gvec(rng)
+    return use
+
+
+def run_use(outer, inner, use):
+    """-> values of the response / of the newly stored signal, or "err" (ValueError, nothing stored)"""
+    from pyrex.signals import Signal
+    sd, fr = use["signal"], use["force_real"]
+    d = None if use["direction"] is None else np.array(use["direction"])
+    before = len(inner.signals)
+    try:
+        if use["op"] == "respond":
+            out = outer.apply_response(mk_signal(sd, use["vt"]), direction=d, force_real=fr,
+                                       polarization=None if use["polarization"] is None else np.array(use["polarization"]))
+            if len(inner.signals) != before:
+                return "stored-by-apply_response"
+        else:
+            if use["op"] == "receive1":
+                outer.receive(mk_signal(sd, use["vt"]), direction=d, force_real=fr,
+                              polarization=None if use["polarization"] is None else np.array(use["polarization"]))
+            else:
+                outer.receive([mk_signal(dict(sd, vals=c["vals"]), c["vt"]) for c in use["components"]], direction=d,
+                              polarization=[np.array(c["pol"]) for c in use["components"]], force_real=fr)
+            if len(inner.signals) != before + 1:
+                return "stored-%d" % (len(inner.signals) - before)
+            out = inner.signals[-1]
+    except ValueError:
+        return "err" if len(inner.signals) == before else "stored-despite-error"
+    if out.value_type != Signal.Type.voltage:
+        return "not-voltage"
+    return [float(v) for v in np.real(out.values)]
+
+
+def expected_use(spec, use, fresh_inner):
+    """the response the property prescribes, from a never-used antenna's filter and the stored state"""
+    st = current_state(spec)
+    sd, fr = use["signal"], use["force_real"]
+    comps = ([{"vals": sd["vals"], "vt": use["vt"], "pol": use["polarization"]}] if use["op"] != "receive"
+             else use["components"])
+    if any(c["vt"] not in ("field", "voltage") for c in comps):
+        return "err"
+    tot = 0.0
+    for c in comps:
+        base = mk_signal(dict(sd, vals=c["vals"]), c["vt"])
+        base.filter_frequencies(fresh_inner.frequency_response, force_real=fr)
+        tot = tot + np.real(base.values) * expected_gain_factor(spec, st, use["direction"], c["pol"], c["vt"])
+    return [float(v) for v in tot]
+
+
+def use_scale(spec, use, fresh_inner):
+    st = current_state(spec)
+    sd = use["signal"]
+    comps = [sd["vals"]] if use["op"] != "receive" else [c["vals"] for c in use["components"]]
+    m = 0.0
+    for v in comps:
+        base = mk_signal(dict(sd, vals=v), "voltage")
+        base.filter_frequencies(fresh_inner.frequency_response, force_real=use["force_real"])
+        m += float(np.max(np.abs(base.values)))
+    return m * abs(st["eff"]) * max(1.0, 1.0 / abs(st["af"])) * 4 + 1e-300
+
+
+def use_request(spec, fresh_inner, use):
+    sd, fr = use["signal"], use["force_real"]
+    ft = filter_toks(spec, fresh_inner, sd, fr)
+    if use["op"] == "receive":
+        req = head(spec, fresh_inner, "receive", use["direction"]) + " | %s | list" % ft
+        for c in use["components"]:
+            req += " | 0 %s %s | %s" % (c["vt"], opt3(c["pol"]), fw.fl(c["vals"]))
+        return req
+    return head(spec, fresh_inner, use["op"], use["direction"]) + " | %s | 0 %s %s | %s" % (
+        ft, use["vt"], opt3(use["polarization"]), fw.fl(sd["vals"]))
+
+
 def mk_signal(sd, vt):
     from pyrex.signals import Signal
     n = len(sd["vals"])
@@ -163,12 +392,25 @@ def opt3(v):
     return "-" if v is None else fw.fl(v)
 
 
+def hist_toks(spec):
+    out = ""
+    for rec in spec.get("hist", []):
+        if rec[0] == "so":
+            out += " ; so %s %s" % (fw.fl(rec[1]), fw.fl(rec[2]))
+        elif rec[0] in ("pos", "zax", "xax"):
+            out += " ; %s %s" % (rec[0], fw.fl(rec[1]))
+        elif rec[0] in ("af", "eff"):
+            out += " ; %s %s" % (rec[0], fw.fl([rec[1]]))
+    return out
+
+
 def ant_toks(spec, inner):
     if spec["kind"] in ("dip", "sysdip"):
         eh = "-" if spec.get("eh") is None else str(fw.f2b(spec["eh"]))
         return "D %s %s %s %s %s" % (fw.fl(spec["pos"]), fw.fl(spec["z"]), fw.fl([spec["cf"], spec["bw"]]), eh,
-                                     fw.fl(spec["tape"]))
-    return "A %s %s %s %s" % (fw.fl(spec["pos"]), fw.fl(spec["z"]), fw.fl(spec["x"]), fw.fl([spec["af"], spec["eff"]]))
+                                     fw.fl(spec["tape"])) + hist_toks(spec)
+    return "A %s %s %s %s" % (fw.fl(spec["pos"]), fw.fl(spec["z"]), fw.fl(spec["x"]),
+                              fw.fl([spec["af"], spec["eff"]])) + hist_toks(spec)
 
 
 def gain_toks(spec):
@@ -386,8 +628,52 @@ def correspondence(run):
             ("perp", eps), lambda reply, exp=exp: None if (reply == "err") == (exp == "err") and reply != "bad-op"
             else "model=%s impl=%s" % (reply[:40], exp), nontrivial=False)
 
+    # --- histories on ONE object: after every step the object, a never-used antenna brought to the same
+    #     parameters, and the model (constructor + history records) must answer alike
+    hkinds = ["custom", "dip", "sysdip", "syscustom", "custom", "dip", "unit"]
+    for hi in range(run.scale(50, 500)):
+        kind = hkinds[hi % len(hkinds)]
+        spec = rand_spec(run, kind)
+        spec["hist"] = []
+        outer, inner = build(spec)
+        run.count("history_" + kind)
+        n_, dt_ = (None, None) if rng.random() < 0.5 else (rng.choice([8, 12, 16]), rng.choice([1e-9, 0.5e-9]))
+        keep = {}
+        for step in range(rng.choice([3, 4, 5, 6])):
+            if step > 0:
+                rec = rand_record(run, spec)
+                run.count("history_step_" + rec[0])
+                apply_record(outer, inner, rec)
+                spec["hist"] = spec["hist"] + [rec]
+            # same grid on consecutive steps half of the time (a cache keyed on the grid would be hit)
+            use = rand_use(run, n_, dt_, keep)
+            got = run_use(outer, inner, use)
+            fo, fi = build(spec)
+            fresh = run_use(fo, fi, use)
+            sc = use_scale(spec, use, fi)
+            key = ("history", hi, step, kind, use["op"])
+            same = (got == fresh) if isinstance(got, str) or isinstance(fresh, str) else \
+                (len(got) == len(fresh) and all(abs(a - b) <= 1e-12 * sc for a, b in zip(got, fresh)))
+            if not same:
+                run.note_broken("correspondence: history %s step %d: the used object answers %s, a never-used antenna "
+                                "with the same parameters %s (history %s)" % (kind, step, str(got)[:80], str(fresh)[:80],
+                                                                             spec["hist"]))
+
+            def fnh(reply, got=got, sc=sc, strip=(use["op"] != "respond")):
+                if isinstance(got, str):
+                    return None if reply == got == "err" else "model=%s impl=%s" % (reply[:60], got)
+                if reply in ("err", "bad-op"):
+                    return "model=%s impl=%s" % (reply, got[:4])
+                g = fw.unfl(reply.split()[1:] if strip else reply.split())
+                if len(g) != len(got) or not all(abs(a - b) <= 1e-9 * sc for a, b in zip(g, got)):
+                    return "model=%s impl=%s" % (g[:4], got[:4])
+                return None
+            add(use_request(spec, fi, use), key, fnh, nontrivial=not isinstance(got, str),
+                sample={"op": "history", "spec": {k: v for k, v in spec.items() if k != "hist"}, "hist": spec["hist"],
+                        "use": use["op"]} if step == 2 else None)
+
     replies = fw.run_driver("C08", reqs)
-    ok = True
+    ok = not run.broken
     for rq, (desc, fn, nontriv, sample), rp in zip(reqs, checks, replies):
         run.case(desc, nontrivial=nontriv, sample=sample)
         bad = fn(rp) if rp != "bad-op" else "model rejected the request (bad-op)"
@@ -402,7 +688,92 @@ def correspondence(run):
 # --------------------------------------------------------------------------------------------
 # property-level oracles on the implementation alone
 def oracle(kind, inp):
-    """-> None when the property holds on this input, else (observed, expected, what)"""
+    """-> None when the property holds on this input, else (observed, expected, what); an exception where the
+    property demands an answer is a failure of the property on that input, not of the harness"""
+    try:
+        if kind == "history":
+            return oracle_history(inp)
+        if kind == "reorient":
+            return oracle_reorient(inp)
+        return oracle_plain(kind, inp)
+    except Exception as e:     # noqa: BLE001
+        import traceback
+        return ("raised %s: %s" % (type(e).__name__, str(e)[:200]), "a response",
+                "%s oracle: the implementation raised where the property prescribes a response (%s)"
+                % (kind, traceback.format_exc().strip().split("\n")[-3].strip()[:160]))
+
+
+def _close(a, b, tol):
+    if isinstance(a, str) or isinstance(b, str):
+        return a == b
+    return len(a) == len(b) and all(abs(x - y) <= tol for x, y in zip(a, b))
+
+
+def oracle_history(inp):
+    """short history on one object; after every step its answer must be the one the property prescribes for the
+    CURRENT parameters, and the one of a never-used antenna constructed with the current parameters"""
+    spec = dict(inp["spec"], hist=[])
+    outer, inner = build(spec)
+    for si, step in enumerate(inp["steps"]):
+        if step.get("rec") is not None:
+            apply_record(outer, inner, step["rec"])
+            spec["hist"] = spec["hist"] + [step["rec"]]
+        use = step["use"]
+        got = run_use(outer, inner, use)
+        fo, fi = fresh_antenna(spec)
+        sc = use_scale(spec, use, fi)
+        want = expected_use(spec, use, fi)
+        if not _close(got, want, 1e-8 * sc):
+            return ([si, got if isinstance(got, str) else got[:4]], [si, want if isinstance(want, str) else want[:4]],
+                    "after the history %s the %s answer is not filter x gains x efficiency (/ factor for fields) for the "
+                    "current axes and parameters" % ([r[0] for r in spec["hist"]], use["op"]))
+        fresh = run_use(fo, fi, use)
+        if not _close(got, fresh, 1e-9 * sc):
+            return ([si, got if isinstance(got, str) else got[:4]], [si, fresh if isinstance(fresh, str) else fresh[:4]],
+                    "after the history %s the used object and a fresh antenna with the current parameters disagree"
+                    % [r[0] for r in spec["hist"]])
+    return None
+
+
+def fresh_antenna(spec):
+    """a never-used antenna with the current parameters; built through the constructor alone where it can express
+    them (base Antenna, axes last set by a successful set_orientation), otherwise constructor + the same assignments"""
+    hist = spec.get("hist", [])
+    if spec["kind"] not in ("dip", "sysdip") and not any(r[0] in ("zax", "xax") for r in hist):
+        st = current_state(spec)
+        if abs(float(np.dot(st["z"], st["x"]))) <= 1e-9:
+            flat = dict(spec, hist=[], pos=[float(c) for c in st["pos"]], z=[float(c) for c in st["z"]],
+                        x=[float(c) for c in st["x"]], af=st["af"], eff=st["eff"])
+            return build(flat)
+    return build(spec)
+
+
+def oracle_reorient(inp):
+    """rotation covariance across set_orientation on one object: after the axes, the direction and the polarisation
+    have been rotated together the response is the one before the rotation"""
+    spec = dict(inp["spec"], hist=[])
+    outer, inner = build(spec)
+    use = inp["use"]
+    d, p = np.array(use["direction"]), np.array(use["polarization"])
+    r0 = run_use(outer, inner, use)
+    fo, fi = build(spec)
+    sc = use_scale(spec, use, fi)
+    for ri, R in enumerate(inp["rotations"]):
+        R = np.array(R)
+        st = current_state(spec)
+        rec = ["so", [float(c) for c in R @ st["z"]], [float(c) for c in R @ st["x"]]]
+        apply_record(outer, inner, rec)
+        spec["hist"] = spec["hist"] + [rec]
+        d, p = R @ d, R @ p
+        r1 = run_use(outer, inner, dict(use, direction=[float(c) for c in d], polarization=[float(c) for c in p]))
+        if not _close(r0, r1, 1e-8 * sc):
+            return ([ri, r1 if isinstance(r1, str) else r1[:4]], [ri, r0 if isinstance(r0, str) else r0[:4]],
+                    "response changes when the axes (through set_orientation on the same object), the direction and the "
+                    "polarisation are rotated together")
+    return None
+
+
+def oracle_plain(kind, inp):
     from pyrex.signals import Signal
     spec = inp["spec"]
     direction, pol, sd = np.array(inp["direction"]), np.array(inp["polarization"]), inp["signal"]
@@ -487,6 +858,21 @@ def oracle(kind, inp):
         scr = sum(float(np.max(np.abs(p))) for p in parts) + 1e-300
         if len(i2.signals) != 1 or not np.allclose(got, want, rtol=0, atol=1e-9 * scr):
             return got[:4].tolist(), want[:4].tolist(), "received signal is not the sum of the polarised components' responses"
+        # a component that is neither field nor voltage is rejected wherever it stands, nothing is stored
+        for pos_ in range(len(comps) + 1):
+            for bad in ("undefined", "power"):
+                o3, i3 = build(spec)
+                sigs = [mk_signal(dict(sd, vals=c["vals"]), c["vt"]) for c in comps]
+                pols = [np.array(c["pol"]) for c in comps]
+                sigs.insert(pos_, mk_signal(sd, bad))
+                pols.insert(pos_, pol)
+                try:
+                    o3.receive(sigs, direction=direction, polarization=pols, force_real=fr)
+                    return ("accepted", "ValueError", "receive accepts a component of value type %s at position %d of %s"
+                            % (bad, pos_, [c["vt"] for c in comps]))
+                except ValueError:
+                    if len(i3.signals) != 0:
+                        return ("stored", "nothing stored", "receive stored a signal although it raised")
         if outer is not inner:   # delegation: the system and its antenna answer alike
             ra = resp(inner, sd, vt, direction, pol)
             if not np.array_equal(ra, r0):
@@ -521,10 +907,28 @@ def gen_input(run, kind):
                               "pol": gvec(rng)} for _ in range(rng.choice([1, 2, 3]))]
     elif kind == "frame":
         inp["point"] = [p + c for p, c in zip(spec["pos"], gvec(rng, rng.choice([1.0, 40.0])))]
+    elif kind == "history":
+        work = dict(spec, hist=[])
+        n_, dt_ = (None, None) if rng.random() < 0.5 else (rng.choice([8, 12, 16]), rng.choice([1e-9, 0.5e-9]))
+        steps = []
+        keep = {}
+        for si in range(rng.choice([3, 4, 5])):
+            rec = None
+            if si > 0:
+                rec = rand_record(run, work)
+                work["hist"] = work["hist"] + [rec]
+            steps.append({"rec": rec, "use": rand_use(run, n_, dt_, keep)})
+        return {"spec": spec, "steps": steps}
+    elif kind == "reorient":
+        use = rand_use(run)
+        use.update(op=rng.choice(["respond", "receive1"]), vt=rng.choice(["field", "voltage"]),
+                   direction=gvec(rng), polarization=gvec(rng))
+        use.pop("components", None)
+        return {"spec": spec, "use": use, "rotations": [rand_rotation(rng).tolist() for _ in range(rng.choice([1, 2, 3]))]}
     return inp
 
 
-ORACLES = ["rotate", "linear", "factor", "rejects", "receive", "frame"]
+ORACLES = ["rotate", "linear", "factor", "rejects", "receive", "frame", "history", "history", "reorient"]
 
 
 def search(run, deep):
